@@ -317,28 +317,43 @@ class Model:
         self.n = 0
         self.calls = 0
 
+    def _run_part(self, part, tag):
+        fin = os.path.join(self.scratch, 'req%s.txt' % tag)
+        with open(fin, 'w') as f:
+            for fname, args in part:
+                f.write(encode_request(fname, args))
+                f.write('\n')
+        with open(fin) as f:
+            r = subprocess.run(['/bin/sh', '-c', 'ulimit -s unlimited 2>/dev/null; exec "$0"', DRIVER],
+                               stdin=f, stdout=subprocess.PIPE, text=True, timeout=3600)
+        os.unlink(fin)
+        lines = r.stdout.split('\n')
+        if lines and lines[-1] == '':
+            lines.pop()
+        if len(lines) != len(part):
+            raise RuntimeError('driver returned %d replies for %d requests (rc=%s)'
+                               % (len(lines), len(part), r.returncode))
+        return [decode_reply(l) for l in lines]
+
     def run(self, requests, chunk=200000):
-        """requests: list of (fname, args) -> list of decoded replies."""
+        """requests: list of (fname, args) -> list of decoded replies.  Large batches are shared out over several driver
+        processes (the extracted model is a pure function of each request, so the replies do not depend on the split)."""
         out = []
+        workers = max(1, min(8, (os.cpu_count() or 2) // 2))
         for k in range(0, len(requests), chunk):
             part = requests[k:k + chunk]
             self.n += 1
-            fin = os.path.join(self.scratch, 'req%d.txt' % self.n)
-            with open(fin, 'w') as f:
-                for fname, args in part:
-                    f.write(encode_request(fname, args))
-                    f.write('\n')
-            with open(fin) as f:
-                r = subprocess.run(['/bin/sh', '-c', 'ulimit -s unlimited 2>/dev/null; exec "$0"', DRIVER],
-                                   stdin=f, stdout=subprocess.PIPE, text=True, timeout=3600)
-            os.unlink(fin)
-            lines = r.stdout.split('\n')
-            if lines and lines[-1] == '':
-                lines.pop()
-            if len(lines) != len(part):
-                raise RuntimeError('driver returned %d replies for %d requests (rc=%s)'
-                                   % (len(lines), len(part), r.returncode))
-            out.extend(decode_reply(l) for l in lines)
+            size = sum(len(repr(a)) for _, a in part[:2000]) * max(1, len(part) // 2000)
+            if workers > 1 and len(part) >= 200 and size > 200000:
+                from concurrent.futures import ThreadPoolExecutor
+                step = (len(part) + workers - 1) // workers
+                pieces = [part[i:i + step] for i in range(0, len(part), step)]
+                with ThreadPoolExecutor(len(pieces)) as ex:
+                    res = list(ex.map(lambda iv: self._run_part(iv[1], '%d_%d' % (self.n, iv[0])), enumerate(pieces)))
+                for r in res:
+                    out.extend(r)
+            else:
+                out.extend(self._run_part(part, '%d' % self.n))
             self.calls += len(part)
         return out
 
